@@ -109,6 +109,23 @@ pub fn silence_panics() {
     }));
 }
 
+/// For libFuzzer targets: libfuzzer-sys installs a hook that aborts on *every* panic, also on the ones an oracle
+/// expects and catches (`catch`: "this call must panic").  This replaces it (once) with a hook that lets panics
+/// inside `catch` unwind silently and still aborts - after printing - on any other panic, so that an oracle
+/// failure (`panic!("Cxx violation: ..")`) or an unexpected panic is reported as a crash with its input.
+pub fn fuzz_init() {
+    static ONCE: std::sync::Once = std::sync::Once::new();
+    ONCE.call_once(|| {
+        std::panic::set_hook(Box::new(|info| {
+            if QUIET.with(|q| q.get()) > 0 {
+                return;
+            }
+            eprintln!("{info}");
+            std::process::abort();
+        }));
+    });
+}
+
 pub fn panic_message(e: Box<dyn std::any::Any + Send>) -> String {
     if let Some(s) = e.downcast_ref::<&str>() {
         s.to_string()
